@@ -23,6 +23,9 @@ func runC08(c *Ctx) {
 	checkSigningKeyDiscipline(c)
 	// the times keys are dated with never go back and never lose a clock (ValidKeysAtTime carries the previous time over)
 	checkIdentityValidate(c)
+	// what is signed survives go-git's re-encoding of the commit: idents are cleaned (shared with C15); rebuilt clocks are not behind the commits (shared with C05)
+	checkCommitIdentsClean(c)
+	checkClockRebuild(c)
 	// the identity versions keys are judged with are the merged ones: every remote identity is merged and reported
 	ruleDocsMerge(c)
 	effM := newEffects(w)
@@ -31,210 +34,7 @@ func runC08(c *Ctx) {
 	// the logical times keys are dated with: clocks persisted, merged identities taken over by the cache
 	checkMemClock(c)
 	checkCacheMergeFold(c, "R2.6")
-	c.Doc("R8.1", "no path from the 'keys in force' edge to the success return of readOperationPack avoids a CheckDetachedSignature call whose error is returned; the check is conditional on nothing but len(keys) > 0")
-	c.Doc("R8.2", "keys come from author.ValidKeysAtTime(<edit clock>, <time parsed from this commit's edit-clock tree entry>), author = the pack's resolved author; the keyring holds PGPEntity() of exactly those keys; data/signature are commit.SignedData / commit.Signature")
-	c.Doc("R8.3", "a nil SignedData or Signature is refused with an error before CheckDetachedSignature")
-	c.Doc("R8.4", "ValidKeysAtTime returns early iff a version's time for the clock is > T (strict), carrying over the previous time when a version lacks the clock, and returns the keys of the last version passed")
-	c.Doc("R8.5", "Write stores a signed commit iff Author.SigningKey is non-nil, with that key; StoreSignedCommit signs the commit encoded before PGPSignature is set; ReadCommit gives EncodeWithoutSignature as signed data")
-	fn := w.Func("entity/dag", "readOperationPack")
-	if fn == nil {
-		c.Undecided("R8.1", "anchor:readOperationPack", "entity/dag", "not found")
-		return
-	}
-	c.seeFn(funcName(fn))
-	pos := w.FnPos(fn)
-	var check *Call
-	for _, cl := range Calls(fn) {
-		if strings.HasSuffix(cl.Name, "openpgp.CheckDetachedSignature") || strings.HasSuffix(cl.Name, "openpgp.CheckArmoredDetachedSignature") {
-			check = cl
-		}
-	}
-	var vk *Call
-	for _, cl := range Calls(fn) {
-		if strings.HasSuffix(cl.Name, ".ValidKeysAtTime") {
-			vk = cl
-		}
-	}
-	// the verification may live in a same-package helper that is handed the keys ("verification unit")
-	unit := fn
-	site := check
-	if check == nil && vk != nil {
-		for _, cl := range Calls(fn) {
-			h := cl.Fn
-			if h == nil || h.Pkg != fn.Pkg || len(h.Blocks) == 0 || h == fn {
-				continue
-			}
-			for _, hc := range Calls(h) {
-				if strings.HasSuffix(hc.Name, "openpgp.CheckDetachedSignature") || strings.HasSuffix(hc.Name, "openpgp.CheckArmoredDetachedSignature") {
-					check, unit, site = hc, h, cl
-				}
-			}
-		}
-	}
-	if check == nil || vk == nil {
-		c.Violate("R8.1", "readOperationPack:verification", pos, "no signature verification (ValidKeysAtTime + CheckDetachedSignature) found")
-		return
-	}
-	c.Sites += 2
-	keys := vk.Value()
-	// the keys as the verification unit sees them
-	var keysInUnit ssa.Value = keys
-	if unit != fn {
-		keysInUnit = nil
-		for i, a := range site.Instr.Common().Args {
-			if a == keys && i < len(unit.Params) {
-				keysInUnit = unit.Params[i]
-			}
-		}
-		if keysInUnit == nil {
-			c.Violate("R8.1", "readOperationPack:verification", w.InstrPos(site.Instr), "the helper that verifies the signature is not handed the keys valid at the commit's time")
-			return
-		}
-		c.seeFn(funcName(unit))
-		// inside the helper: no success without the check, its error returned, nothing but refusals before it
-		isChk := func(i ssa.Instruction) bool { return i == check.Instr }
-		badH, pH, _ := pathAvoiding(unit, nil, isSuccessReturn, isChk)
-		c.Check(!badH, "R8.1", "readOperationPack:helper-always-verifies", w.InstrPos(check.Instr), "the helper cannot succeed without CheckDetachedSignature", "the helper holding the verification can return success without verifying: "+blocksString(w, pH))
-		c.Check(errorPropagated(check.Value(), nil), "R8.1", "readOperationPack:helper-returns-verification-error", w.InstrPos(check.Instr), "verification failure is returned", "the result of CheckDetachedSignature is ignored inside the helper")
-	}
-	// the len(keys) branch
-	var lenIf *ssa.If
-	keysEdge := -1
-	for _, b := range fn.Blocks {
-		if len(b.Instrs) == 0 {
-			continue
-		}
-		iff, ok := b.Instrs[len(b.Instrs)-1].(*ssa.If)
-		if !ok {
-			continue
-		}
-		bo, ok := iff.Cond.(*ssa.BinOp)
-		if !ok {
-			continue
-		}
-		lc, ok := bo.X.(*ssa.Call)
-		if !ok {
-			continue
-		}
-		if bi, isB := lc.Common().Value.(*ssa.Builtin); !isB || bi.Name() != "len" || lc.Common().Args[0] != keys {
-			continue
-		}
-		k, isK := constInt(bo.Y)
-		if !isK {
-			continue
-		}
-		switch {
-		case (bo.Op == token.GTR && k == 0) || (bo.Op == token.NEQ && k == 0) || (bo.Op == token.GEQ && k == 1):
-			lenIf, keysEdge = iff, 0
-		case (bo.Op == token.EQL && k == 0) || (bo.Op == token.LEQ && k == 0) || (bo.Op == token.LSS && k == 1):
-			lenIf, keysEdge = iff, 1
-		default:
-			c.Violate("R8.1", "readOperationPack:keys-in-force-test", w.InstrPos(iff), fmt.Sprintf("verification is conditional on len(keys) %s %d: commits of authors with a key in force can skip verification", bo.Op, k))
-			return
-		}
-	}
-	if lenIf == nil {
-		c.Violate("R8.1", "readOperationPack:keys-in-force-test", pos, "no test of len(keys) found")
-		return
-	}
-	kb := lenIf.Block().Succs[keysEdge]
-	isCheck := func(i ssa.Instruction) bool { return i == site.Instr }
-	bad, p, _ := pathSearch(fn, nil, kb, isSuccessReturn, isCheck, false)
-	okDom := true
-	for _, r := range Returns(fn) {
-		if returnKind(r) != RetError && !lenIf.Block().Dominates(r.Block()) {
-			okDom = false
-		}
-	}
-	c.Check(!bad && okDom, "R8.1", "readOperationPack:verified-before-success", w.InstrPos(site.Instr), "with a key in force, success is only reachable through CheckDetachedSignature", "a success return is reachable with keys in force but without verification: "+blocksString(w, p))
-	c.Check(errorPropagated(site.Value(), nil), "R8.1", "readOperationPack:verification-error-returned", w.InstrPos(site.Instr), "verification failure is returned as an error", "the result of CheckDetachedSignature is ignored")
-	// conditional on nothing else
-	other := ""
-	for _, cc := range controlConds(site.Block(), nil) {
-		if cc.If == lenIf || isLoopHeader(cc.If.Block()) {
-			continue
-		}
-		if e := errEdge(cc.If, defaultFail); e >= 0 && e != cc.Edge {
-			continue
-		}
-		other = w.InstrPos(cc.If)
-	}
-	c.Check(other == "", "R8.1", "readOperationPack:verification-unconditional", w.InstrPos(site.Instr), "verification depends only on keys being in force", "verification is additionally conditional on "+other)
-
-	// R8.2
-	vargs := vk.Args()
-	c.Check(clockKind(w, vargs[0]) == "edit", "R8.2", "readOperationPack:keys-clock", w.InstrPos(vk.Instr), "keys looked up on the namespace's edit clock", "keys are looked up on a clock other than the namespace's edit clock")
-	editPrefix, _ := pkgConstString(w, "entity/dag", "editClockEntryPrefix")
-	okTime, whyT := false, "the time given to ValidKeysAtTime is not parsed from this commit's edit-clock tree entry"
-	for _, o := range origins(vargs[1]) {
-		if o.Kind == "call" && o.Name == "strconv.ParseUint" {
-			pc := o.Val.(*ssa.Call)
-			if tp, ok := pc.Common().Args[0].(*ssa.Call); ok {
-				if n, _ := callName(tp.Common()); n == "strings.TrimPrefix" {
-					if pf, ok := constString(tp.Common().Args[1]); ok {
-						if pf == editPrefix {
-							okTime = true
-						} else {
-							okTime, whyT = false, "keys are evaluated at the time of the "+pf+" entry, not the edit time"
-							break
-						}
-					}
-				}
-			}
-		} else if o.Kind != "const" {
-			okTime, whyT = false, "the time given to ValidKeysAtTime has another origin: "+o.String()
-			break
-		}
-	}
-	c.Check(okTime, "R8.2", "readOperationPack:keys-time", w.InstrPos(vk.Instr), "evaluated at the commit's own edit time", whyT)
-	c.Check(hasOriginCall(vk.Recv(), "entity/dag.unmarshallPack", 1) != nil, "R8.2", "readOperationPack:keys-author", w.InstrPos(vk.Instr), "keys of this pack's resolved author", "keys are not those of the author resolved for this pack")
-	// keyring
-	cargs := check.Args()
-	okRing, whyR := true, ""
-	vals := appendedValues(stripConv(cargs[0]))
-	if len(vals) == 0 {
-		okRing, whyR = false, "keyring is not built by appending the valid keys"
-	}
-	for _, v := range vals {
-		pc, ok := v.(*ssa.Call)
-		if !ok {
-			okRing, whyR = false, "keyring receives something other than key.PGPEntity()"
-			break
-		}
-		if n, _ := callName(pc.Common()); n != "entities/identity.Key.PGPEntity" {
-			okRing, whyR = false, "keyring receives "+n
-			break
-		}
-		fromKeys := false
-		for _, o := range origins(pc.Common().Args[0]) {
-			if o.Val == keysInUnit {
-				fromKeys = true
-			}
-		}
-		if !fromKeys {
-			okRing, whyR = false, "keyring entries do not come from the keys valid at the commit's time"
-		}
-	}
-	c.Check(okRing, "R8.2", "readOperationPack:keyring", w.InstrPos(check.Instr), "keyring = PGPEntity() of exactly the valid keys", whyR)
-	okData := hasField(cargs[1], "SignedData") && hasField(cargs[2], "Signature")
-	c.Check(okData, "R8.2", "readOperationPack:signed-data", w.InstrPos(check.Instr), "verifies commit.Signature over commit.SignedData", "the data/signature verified are not the commit's SignedData/Signature")
-
-	// R8.3
-	for _, f := range []string{"SignedData", "Signature"} {
-		ok := false
-		for _, g := range cmpGuards(unit, nil) {
-			gg, o := g.oriented(func(v ssa.Value) bool { return hasField(v, f) && !hasField(v, "SignedData") == (f != "SignedData") })
-			if !o || !isNilConst(gg.Y) || gg.Op != token.EQL {
-				continue
-			}
-			// the continuing edge must dominate the check
-			e := errEdge(gg.If, defaultFail)
-			if e >= 0 && gg.If.Block().Succs[1-e].Dominates(check.Block()) || gg.If.Block().Dominates(check.Block()) && e >= 0 {
-				ok = true
-			}
-		}
-		c.Check(ok, "R8.3", "readOperationPack:signature-present:"+f, w.InstrPos(check.Instr), "nil "+f+" is an error", "a commit without "+f+" reaches CheckDetachedSignature (nil reader) instead of being rejected")
-	}
+	checkPackVerification(c)
 	checkValidKeysAtTime(c)
 	checkSigningWrite(c)
 }
@@ -1073,4 +873,214 @@ func ticksEveryClock(c *Ctx, f *ssa.Function, targets []*ssa.BasicBlock) (bool, 
 		why = "the clocks are not advanced unconditionally, with errors propagated, before the version is dated"
 	}
 	return false, why
+}
+
+// checkPackVerification (R8.1–R8.3): what readOperationPack verifies and with which inputs. Shared with C01:
+// replicas converge only if each of them accepts exactly the commits the others accept.
+func checkPackVerification(c *Ctx) {
+	w := c.W
+	c.Doc("R8.1", "no path from the 'keys in force' edge to the success return of readOperationPack avoids a CheckDetachedSignature call whose error is returned; the check is conditional on nothing but len(keys) > 0")
+	c.Doc("R8.2", "keys come from author.ValidKeysAtTime(<edit clock>, <time parsed from this commit's edit-clock tree entry>), author = the pack's resolved author; the keyring holds PGPEntity() of exactly those keys; data/signature are commit.SignedData / commit.Signature")
+	c.Doc("R8.3", "a nil SignedData or Signature is refused with an error before CheckDetachedSignature")
+	c.Doc("R8.4", "ValidKeysAtTime returns early iff a version's time for the clock is > T (strict), carrying over the previous time when a version lacks the clock, and returns the keys of the last version passed")
+	c.Doc("R8.5", "Write stores a signed commit iff Author.SigningKey is non-nil, with that key; StoreSignedCommit signs the commit encoded before PGPSignature is set; ReadCommit gives EncodeWithoutSignature as signed data")
+	fn := w.Func("entity/dag", "readOperationPack")
+	if fn == nil {
+		c.Undecided("R8.1", "anchor:readOperationPack", "entity/dag", "not found")
+		return
+	}
+	c.seeFn(funcName(fn))
+	pos := w.FnPos(fn)
+	var check *Call
+	for _, cl := range Calls(fn) {
+		if strings.HasSuffix(cl.Name, "openpgp.CheckDetachedSignature") || strings.HasSuffix(cl.Name, "openpgp.CheckArmoredDetachedSignature") {
+			check = cl
+		}
+	}
+	var vk *Call
+	for _, cl := range Calls(fn) {
+		if strings.HasSuffix(cl.Name, ".ValidKeysAtTime") {
+			vk = cl
+		}
+	}
+	// the verification may live in a same-package helper that is handed the keys ("verification unit")
+	unit := fn
+	site := check
+	if check == nil && vk != nil {
+		for _, cl := range Calls(fn) {
+			h := cl.Fn
+			if h == nil || h.Pkg != fn.Pkg || len(h.Blocks) == 0 || h == fn {
+				continue
+			}
+			for _, hc := range Calls(h) {
+				if strings.HasSuffix(hc.Name, "openpgp.CheckDetachedSignature") || strings.HasSuffix(hc.Name, "openpgp.CheckArmoredDetachedSignature") {
+					check, unit, site = hc, h, cl
+				}
+			}
+		}
+	}
+	if check == nil || vk == nil {
+		c.Violate("R8.1", "readOperationPack:verification", pos, "no signature verification (ValidKeysAtTime + CheckDetachedSignature) found")
+		return
+	}
+	c.Sites += 2
+	keys := vk.Value()
+	// the keys as the verification unit sees them
+	var keysInUnit ssa.Value = keys
+	if unit != fn {
+		keysInUnit = nil
+		for i, a := range site.Instr.Common().Args {
+			if a == keys && i < len(unit.Params) {
+				keysInUnit = unit.Params[i]
+			}
+		}
+		if keysInUnit == nil {
+			c.Violate("R8.1", "readOperationPack:verification", w.InstrPos(site.Instr), "the helper that verifies the signature is not handed the keys valid at the commit's time")
+			return
+		}
+		c.seeFn(funcName(unit))
+		// inside the helper: no success without the check, its error returned, nothing but refusals before it
+		isChk := func(i ssa.Instruction) bool { return i == check.Instr }
+		badH, pH, _ := pathAvoiding(unit, nil, isSuccessReturn, isChk)
+		c.Check(!badH, "R8.1", "readOperationPack:helper-always-verifies", w.InstrPos(check.Instr), "the helper cannot succeed without CheckDetachedSignature", "the helper holding the verification can return success without verifying: "+blocksString(w, pH))
+		c.Check(errorPropagated(check.Value(), nil), "R8.1", "readOperationPack:helper-returns-verification-error", w.InstrPos(check.Instr), "verification failure is returned", "the result of CheckDetachedSignature is ignored inside the helper")
+	}
+	// the len(keys) branch
+	var lenIf *ssa.If
+	keysEdge := -1
+	for _, b := range fn.Blocks {
+		if len(b.Instrs) == 0 {
+			continue
+		}
+		iff, ok := b.Instrs[len(b.Instrs)-1].(*ssa.If)
+		if !ok {
+			continue
+		}
+		bo, ok := iff.Cond.(*ssa.BinOp)
+		if !ok {
+			continue
+		}
+		lc, ok := bo.X.(*ssa.Call)
+		if !ok {
+			continue
+		}
+		if bi, isB := lc.Common().Value.(*ssa.Builtin); !isB || bi.Name() != "len" || lc.Common().Args[0] != keys {
+			continue
+		}
+		k, isK := constInt(bo.Y)
+		if !isK {
+			continue
+		}
+		switch {
+		case (bo.Op == token.GTR && k == 0) || (bo.Op == token.NEQ && k == 0) || (bo.Op == token.GEQ && k == 1):
+			lenIf, keysEdge = iff, 0
+		case (bo.Op == token.EQL && k == 0) || (bo.Op == token.LEQ && k == 0) || (bo.Op == token.LSS && k == 1):
+			lenIf, keysEdge = iff, 1
+		default:
+			c.Violate("R8.1", "readOperationPack:keys-in-force-test", w.InstrPos(iff), fmt.Sprintf("verification is conditional on len(keys) %s %d: commits of authors with a key in force can skip verification", bo.Op, k))
+			return
+		}
+	}
+	if lenIf == nil {
+		c.Violate("R8.1", "readOperationPack:keys-in-force-test", pos, "no test of len(keys) found")
+		return
+	}
+	kb := lenIf.Block().Succs[keysEdge]
+	isCheck := func(i ssa.Instruction) bool { return i == site.Instr }
+	bad, p, _ := pathSearch(fn, nil, kb, isSuccessReturn, isCheck, false)
+	okDom := true
+	for _, r := range Returns(fn) {
+		if returnKind(r) != RetError && !lenIf.Block().Dominates(r.Block()) {
+			okDom = false
+		}
+	}
+	c.Check(!bad && okDom, "R8.1", "readOperationPack:verified-before-success", w.InstrPos(site.Instr), "with a key in force, success is only reachable through CheckDetachedSignature", "a success return is reachable with keys in force but without verification: "+blocksString(w, p))
+	c.Check(errorPropagated(site.Value(), nil), "R8.1", "readOperationPack:verification-error-returned", w.InstrPos(site.Instr), "verification failure is returned as an error", "the result of CheckDetachedSignature is ignored")
+	// conditional on nothing else
+	other := ""
+	for _, cc := range controlConds(site.Block(), nil) {
+		if cc.If == lenIf || isLoopHeader(cc.If.Block()) {
+			continue
+		}
+		if e := errEdge(cc.If, defaultFail); e >= 0 && e != cc.Edge {
+			continue
+		}
+		other = w.InstrPos(cc.If)
+	}
+	c.Check(other == "", "R8.1", "readOperationPack:verification-unconditional", w.InstrPos(site.Instr), "verification depends only on keys being in force", "verification is additionally conditional on "+other)
+
+	// R8.2
+	vargs := vk.Args()
+	c.Check(clockKind(w, vargs[0]) == "edit", "R8.2", "readOperationPack:keys-clock", w.InstrPos(vk.Instr), "keys looked up on the namespace's edit clock", "keys are looked up on a clock other than the namespace's edit clock")
+	editPrefix, _ := pkgConstString(w, "entity/dag", "editClockEntryPrefix")
+	okTime, whyT := false, "the time given to ValidKeysAtTime is not parsed from this commit's edit-clock tree entry"
+	for _, o := range origins(vargs[1]) {
+		if o.Kind == "call" && o.Name == "strconv.ParseUint" {
+			pc := o.Val.(*ssa.Call)
+			if tp, ok := pc.Common().Args[0].(*ssa.Call); ok {
+				if n, _ := callName(tp.Common()); n == "strings.TrimPrefix" {
+					if pf, ok := constString(tp.Common().Args[1]); ok {
+						if pf == editPrefix {
+							okTime = true
+						} else {
+							okTime, whyT = false, "keys are evaluated at the time of the "+pf+" entry, not the edit time"
+							break
+						}
+					}
+				}
+			}
+		} else if o.Kind != "const" {
+			okTime, whyT = false, "the time given to ValidKeysAtTime has another origin: "+o.String()
+			break
+		}
+	}
+	c.Check(okTime, "R8.2", "readOperationPack:keys-time", w.InstrPos(vk.Instr), "evaluated at the commit's own edit time", whyT)
+	c.Check(hasOriginCall(vk.Recv(), "entity/dag.unmarshallPack", 1) != nil, "R8.2", "readOperationPack:keys-author", w.InstrPos(vk.Instr), "keys of this pack's resolved author", "keys are not those of the author resolved for this pack")
+	// keyring
+	cargs := check.Args()
+	okRing, whyR := true, ""
+	vals := appendedValues(stripConv(cargs[0]))
+	if len(vals) == 0 {
+		okRing, whyR = false, "keyring is not built by appending the valid keys"
+	}
+	for _, v := range vals {
+		pc, ok := v.(*ssa.Call)
+		if !ok {
+			okRing, whyR = false, "keyring receives something other than key.PGPEntity()"
+			break
+		}
+		if n, _ := callName(pc.Common()); n != "entities/identity.Key.PGPEntity" {
+			okRing, whyR = false, "keyring receives "+n
+			break
+		}
+		fromKeys := false
+		for _, o := range origins(pc.Common().Args[0]) {
+			if o.Val == keysInUnit {
+				fromKeys = true
+			}
+		}
+		if !fromKeys {
+			okRing, whyR = false, "keyring entries do not come from the keys valid at the commit's time"
+		}
+	}
+	c.Check(okRing, "R8.2", "readOperationPack:keyring", w.InstrPos(check.Instr), "keyring = PGPEntity() of exactly the valid keys", whyR)
+	okData := hasField(cargs[1], "SignedData") && hasField(cargs[2], "Signature")
+	c.Check(okData, "R8.2", "readOperationPack:signed-data", w.InstrPos(check.Instr), "verifies commit.Signature over commit.SignedData", "the data/signature verified are not the commit's SignedData/Signature")
+
+	// R8.3
+	for _, f := range []string{"SignedData", "Signature"} {
+		ok := false
+		for _, g := range cmpGuards(unit, nil) {
+			gg, o := g.oriented(func(v ssa.Value) bool { return hasField(v, f) && !hasField(v, "SignedData") == (f != "SignedData") })
+			if !o || !isNilConst(gg.Y) || gg.Op != token.EQL {
+				continue
+			}
+			// the continuing edge must dominate the check
+			e := errEdge(gg.If, defaultFail)
+			if e >= 0 && gg.If.Block().Succs[1-e].Dominates(check.Block()) || gg.If.Block().Dominates(check.Block()) && e >= 0 {
+				ok = true
+			}
+		}
+		c.Check(ok, "R8.3", "readOperationPack:signature-present:"+f, w.InstrPos(check.Instr), "nil "+f+" is an error", "a commit without "+f+" reaches CheckDetachedSignature (nil reader) instead of being rejected")
+	}
 }
